@@ -20,6 +20,15 @@ the implementation may have to change the schema first, so the prologue (which r
 (eager start) and CREATE/ALTER/DROP statements naming table session are scheduling points ('S').  All interleavings for
 N=2 (N=3 in the thorough tier), same oracle, keys "N=<n>:released-layout:<class>".
 
+Adder dimension: a third kind of actor, the ADDER - a worker that already owns a session (created unscheduled before
+every schedule) and runs Session.add(<tiny DEX from gen/dexgen.py>) - is interleaved with 1 and 2 session creators.  The
+adder's scheduling points are every SQL statement it executes plus the entries of the two long computations of add():
+DEX parsing ('P', dex.DEX.__init__) and xref creation ('X', Analysis.create_xref).  A pause at P/X stands for a
+computation of unbounded length, so a creator that hits a database lock while the adder is paused there (and nobody else
+is mid-operation) is NOT pruned as infeasible: no busy timeout would have saved it, the creation really fails
+(key "adder-holds-lock:creation-failed").  Equivalent invariant, recorded too: the adder is never paused at P/X inside
+an open write transaction.  The adder's own add() is not judged.  The TLA+ models do not have the adder.
+
 Observations are free of wall-clock values: statement parameters are reported as integers (ids) or type names only,
 exception messages are not compared between the two executions of a schedule.
 
@@ -45,7 +54,8 @@ SERIAL = True
 RULE = ("every interleaving of the session-table statements (scheduling points, discovered dynamically) of N=2 and N=3 "
         "real Session() constructors in separate OS processes, each on a fresh copy of a warmed-up SQLite database, and "
         "(N=2; N=3 thorough) on a fresh copy of a database in the released layout built with fixed DDL where prologue and "
-        "schema changes on the table are steps too; "
+        "schema changes on the table are steps too, and of 1 ADDER (Session.add of a tiny DEX: points at each SQL "
+        "statement and at the parse / xref computations) with 1 and 2 creators; "
         "non-trivial = a schedule in which at least two constructors overlap; distinct by construction (DFS over "
         "choice sequences)")
 ASSUMPTIONS = [
@@ -55,6 +65,8 @@ ASSUMPTIONS = [
     "(right movers) and are merged into the next scheduling point",
     "busy timeout 0 in the workers: with one running process at a time a lock conflict means 'not enabled' "
     "(schedule pruned), never a violation, unless no other constructor is in progress",
+    "adder dimension: a pause at the parse / xref point models a computation longer than any busy timeout, so a lock "
+    "conflict with an adder paused there is a real failure; a conflict with a worker paused elsewhere is 'not enabled'",
     "a constructor that raised releases its database resources before any other process takes its next step (as a "
     "terminating process does); finished sessions stay open until the schedule ends",
 ]
@@ -83,6 +95,7 @@ TLC_TIMEOUT = 300
 def space(ctx):
     return {"N": [2, 3], "scheduling_points": "every SQL statement on rows of table 'session' (discovered at run time)",
             "pre_existing_sessions": 1,
+            "adder_dimension": "{1 adder} x {1, 2 creators}; adder points: each SQL statement of Session.add(tiny DEX), P (DEX parse), X (create_xref)",
             "initial_states": {"warmed": "created by Session() of the code under test, N=2,3",
                                "released": "fixed DDL %r, rows %r, N=2%s" % (RELEASED_DDL[1], RELEASED_ROWS, ",3" if ctx.thorough else "")}, "horizon": {"points_per_worker": 32, "schedule_runs": 20000, "tlc_paths": MAX_TLC_PATHS},
             "tlc": {"N": TLC_N_THOROUGH if ctx.thorough else TLC_N_QUICK,
